@@ -75,6 +75,9 @@ package value
 
 //@ interface-contract Value.ToString
 //@   option no-impl-check
+//@   requires st.storage != nil && 0 <= st.offs && 0 <= st.size && st.offs+st.size <= len(st.storage.data)
+//@   ensures len(st.storage.data) >= old(len(st.storage.data))
+//@   ensures forall i in 0..st.offs+st.size :: st.storage.data[i] == old(st.storage.data[i])
 //@   assigns any List.items, any List.itemsPresent, any List.iterable, any funcGen.stackStorage[Value].data, any []Value
 //@ interface-contract Value.ToList
 //@   assigns nothing
@@ -186,3 +189,64 @@ package value
 //@   ensures[type] result1 == nil ==> result0 == box(Bool(true)) || result0 == box(Bool(false))
 //@   assigns nothing
 //@   loop 1 invariant 1 <= i && (forall j in 1..i :: j < stack.size ==> typeis(stackArg(stack, j), String) && mhas(v.m, string(unbox(stackArg(stack, j), String))))
+
+// ---------------------------------------------------------------- dispatch tables (C05: nothing a program can execute panics)
+//
+// Every function literal registered in an operator table, as static function or as method is verified on its own
+// under the preconditions its dispatcher establishes (operand types of the entry; declared number of stack arguments).
+
+//@ table Equal
+//@   safety C05
+//@ table Less
+//@   safety C05
+//@ table Add
+//@   safety C05
+//@ table Sub
+//@   safety C05
+//@ table Mul
+//@   safety C05
+//@ table Div
+//@   safety C05
+//@ table Mod
+//@   safety C05
+//@ table Left
+//@   safety C05
+//@ table Right
+//@   safety C05
+//@ table Pow
+//@   safety C05
+//@ table Neg
+//@   safety C05
+//@ table Not
+//@   safety C05
+//@ table And
+//@   safety C05
+//@ table Or
+//@   safety C05
+//@ table New
+//@   safety C05
+//@ table createBoolMethods
+//@   safety C05
+//@ table createIntMethods
+//@   safety C05
+//@ table createFloatMethods
+//@   safety C05
+//@ table createStringMethods
+//@   safety C05
+//@ table createClosureMethods
+//@   safety C05
+//@ table createMapMethods
+//@   safety C05
+//@ table createListMethods
+//@   safety C05
+
+// values that wrap compiled functions / lists satisfy the invariants of what they wrap
+//@ representation Closure: self.Func != nil && (self.Args >= 0 ==> fs(self.Func) == self.Args) && (self.Args < 0 ==> fs(self.Func) < 0 && fsmin(self.Func) <= 1) && cl(self.Func) == 0
+//@ representation List: self.iterable != nil
+
+//@ interface-contract OperationMatrix.Calc
+//@   option no-impl-check
+//@   requires st.storage != nil && 0 <= st.offs && 0 <= st.size && st.offs+st.size <= len(st.storage.data)
+//@   ensures len(st.storage.data) >= old(len(st.storage.data))
+//@   ensures forall i in 0..st.offs+st.size :: st.storage.data[i] == old(st.storage.data[i])
+//@   assigns any List.items, any List.itemsPresent, any List.iterable, any funcGen.stackStorage[Value].data, any []Value
